@@ -399,6 +399,10 @@ func (core *JApiCore) addRequest(d *directive.Directive) *jerr.JApiError {
 
 	case sn == notation.SchemaNotationRegex && typ == "" && d.BodyCoords.IsSet():
 		if s, err = catalog.NewExchangeRegexSchema(d.BodyCoords.Read()); err == nil {
+			// The regular expression have to be valid before it gets into the catalog.
+			err = s.Check()
+		}
+		if err == nil {
 			err = core.catalog.AddRequestBody(s, bodyFormat, *d)
 		}
 		var e kit.Error
